@@ -21,12 +21,16 @@ pub fn no_child(_: &[String]) -> i32 {
 pub mod okey;
 pub mod capi_sched;
 pub mod locks;
+pub mod handles;
+pub mod snapsched;
 
 pub fn all() -> Vec<StreamDef> {
     vec![
         okey::def(),
         capi_sched::def(),
         locks::def(),
+        handles::def(),
+        snapsched::def(),
     ]
 }
 
